@@ -2,6 +2,7 @@ import Zlink.Model.DriverRx
 import Zlink.Model.DriverTx
 import Zlink.Model.DriverSer
 import Zlink.Model.DriverChain
+import Zlink.Model.DriverSrv
 /-! `zmodel`: reads case lines on stdin, prints for each the model's observation and the Lean
     oracle's verdict on the implementation's observation. -/
 
@@ -13,6 +14,7 @@ def handleLine (line : String) : String :=
   | "tx" :: _ => DriverTx.handle ts
   | "ser" :: _ => DriverSer.handle ts
   | "chain" :: _ => DriverChain.handle ts
+  | "srv" :: _ => DriverSrv.handle ts
   | _ => "skip"
 
 partial def loop (h : IO.FS.Stream) (out : IO.FS.Stream) : IO Unit := do
